@@ -1,6 +1,8 @@
 package sched
 
 import (
+	"bufio"
+	"bytes"
 	"encoding/json"
 	"fmt"
 	"net/http"
@@ -40,6 +42,7 @@ backend F_origin { .host = "origin.test"; .port = "80"; .first_byte_timeout = 5s
 ratecounter rc_a {}
 sub vcl_recv {
   set req.backend = F_origin;
+  if (req.http.X-Flow) { set req.http.X-Flow = req.http.X-Flow ">recv"; } else { set req.http.X-Flow = "recv"; }
   declare local var.n INTEGER;
   declare local var.d INTEGER;
   set var.d = std.atoi(req.http.X-Delta);
@@ -51,22 +54,38 @@ sub vcl_recv {
   if (req.http.X-Mode == "restart" && req.restarts < 2) { restart; }
   return(lookup);
 }
-sub vcl_hash { log "hash " req.http.X-Marker; }
-sub vcl_hit { log "hit " req.http.X-Marker; }
-sub vcl_miss { log "miss " req.http.X-Marker; }
-sub vcl_pass { log "pass " req.http.X-Marker; }
+sub vcl_hash {
+  if (req.http.X-Flow) { set req.http.X-Flow = req.http.X-Flow ">hash"; } else { set req.http.X-Flow = "hash"; }
+  log "hash " req.http.X-Marker;
+}
+sub vcl_hit {
+  if (req.http.X-Flow) { set req.http.X-Flow = req.http.X-Flow ">hit"; } else { set req.http.X-Flow = "hit"; }
+  log "hit " req.http.X-Marker;
+}
+sub vcl_miss {
+  if (req.http.X-Flow) { set req.http.X-Flow = req.http.X-Flow ">miss"; } else { set req.http.X-Flow = "miss"; }
+  log "miss " req.http.X-Marker;
+}
+sub vcl_pass {
+  if (req.http.X-Flow) { set req.http.X-Flow = req.http.X-Flow ">pass"; } else { set req.http.X-Flow = "pass"; }
+  log "pass " req.http.X-Marker;
+}
 sub vcl_fetch {
-  set beresp.ttl = 3600s;
+  if (req.http.X-Flow) { set req.http.X-Flow = req.http.X-Flow ">fetch"; } else { set req.http.X-Flow = "fetch"; }
+  set beresp.ttl = %TTL%;
   set beresp.cacheable = true;
   log "fetch " req.http.X-Marker;
 }
 sub vcl_error {
+  if (req.http.X-Flow) { set req.http.X-Flow = req.http.X-Flow ">error"; } else { set req.http.X-Flow = "error"; }
   set obj.http.X-Err-Marker = req.http.X-Marker;
   log "error " req.http.X-Marker;
 }
 sub vcl_deliver {
   set resp.http.X-Marker = req.http.X-Marker;
   set resp.http.X-Count = req.http.X-Count;
+  set resp.http.X-Flow = req.http.X-Flow ">deliver>log";
+  set resp.http.X-Restarts = req.restarts;
   log "deliver " req.http.X-Marker;
 }
 sub vcl_log {
@@ -79,6 +98,7 @@ type kInput struct {
 	Key    string // URL
 	Delta  int
 	Marker string
+	Slot   int // timed cases: the request is sent at Slot × 10 s of simulated time (objects live 25 s)
 }
 
 type kOutput struct {
@@ -94,29 +114,39 @@ type kState struct {
 	Cache string // "key=marker;key=marker" sorted
 }
 
-func cacheGet(c, key string) (string, bool) {
+func cacheGet(c, key string) (marker string, slot int, ok bool) {
 	for _, kv := range strings.Split(c, ";") {
-		if k, v, ok := strings.Cut(kv, "="); ok && k == key {
-			return v, true
+		if k, v, found := strings.Cut(kv, "="); found && k == key {
+			m, sl, _ := strings.Cut(v, "@")
+			fmt.Sscanf(sl, "%d", &slot)
+			return m, slot, true
 		}
 	}
-	return "", false
+	return "", 0, false
 }
 
-func cachePut(c, key, marker string) string {
+func cachePut(c, key, marker string, slot int) string {
 	var parts []string
 	for _, kv := range strings.Split(c, ";") {
 		if k, _, ok := strings.Cut(kv, "="); ok && k != key {
 			parts = append(parts, kv)
 		}
 	}
-	parts = append(parts, key+"="+marker)
+	parts = append(parts, fmt.Sprintf("%s=%s@%d", key, marker, slot))
 	sort.Strings(parts)
 	return strings.Join(parts, ";")
 }
 
-// m18 is the sequential meaning of one family-K request.
-func m18(st kState, in kInput) (kState, kOutput) {
+// liveSlots: an object stored in slot g (at g×10 s + at most 4 s) with a TTL
+// of 25 s is unexpired for lookups in slots g, g+1 and g+2 and expired from
+// g+3 on, with at least a second of margin on both sides.
+const liveSlots = 2
+
+// m18 is the sequential meaning of one family-K request. Whether the object
+// fetched on the pass path is stored is the simulator's choice (Fastly does
+// not keep it, falco does): passStores selects the variant, and a history is
+// accepted when either variant explains all of it.
+func m18(st kState, in kInput, passStores bool) (kState, kOutput) {
 	out := kOutput{}
 	passes := 1
 	if in.Mode == "restart" {
@@ -131,28 +161,47 @@ func m18(st kState, in kInput) (kState, kOutput) {
 		out.Branch, out.Flow = "error", pre+"recv>error>deliver>log"
 	case "pass":
 		out.Branch, out.OriginSaw, out.Flow = "pass", in.Marker, pre+"recv>hash>pass>fetch>deliver>log"
-		st.Cache = cachePut(st.Cache, in.Key, in.Marker) // falco stores the object on the pass path as well
+		if passStores {
+			st.Cache = cachePut(st.Cache, in.Key, in.Marker, in.Slot)
+		}
 	default:
-		if m, ok := cacheGet(st.Cache, in.Key); ok {
+		if m, g, ok := cacheGet(st.Cache, in.Key); ok && in.Slot-g <= liveSlots {
 			out.Branch, out.OriginSaw, out.Flow = "hit", m, pre+"recv>hash>hit>deliver>log"
 		} else {
 			out.Branch, out.OriginSaw, out.Flow = "miss", in.Marker, pre+"recv>hash>miss>fetch>deliver>log"
-			st.Cache = cachePut(st.Cache, in.Key, in.Marker)
+			st.Cache = cachePut(st.Cache, in.Key, in.Marker, in.Slot)
 		}
 	}
 	return st, out
 }
 
-var kModel = porcupine.Model{
-	Init: func() interface{} { return kState{} },
-	Step: func(state, input, output interface{}) (bool, interface{}) {
-		ns, want := m18(state.(kState), input.(kInput))
-		return want == output.(kOutput), ns
-	},
-	DescribeOperation: func(input, output interface{}) string {
-		return fmt.Sprintf("%+v -> %+v", input, output)
-	},
+func kModelFor(passStores bool) porcupine.Model {
+	return porcupine.Model{
+		Init: func() interface{} { return kState{} },
+		Step: func(state, input, output interface{}) (bool, interface{}) {
+			ns, want := m18(state.(kState), input.(kInput), passStores)
+			return want == output.(kOutput), ns
+		},
+		DescribeOperation: func(input, output interface{}) string {
+			return fmt.Sprintf("%+v -> %+v", input, output)
+		},
+	}
 }
+
+// checkHistory: the history is serialisable when one of the two pass-path
+// variants of M18 explains all of it.
+func checkHistory(ops []porcupine.Operation) porcupine.CheckResult {
+	v := porcupine.CheckOperationsTimeout(kModelFor(true), ops, 20*time.Second)
+	if v != porcupine.Illegal {
+		return v
+	}
+	return porcupine.CheckOperationsTimeout(kModelFor(false), ops, 20*time.Second)
+}
+
+func vclK(ttl string) string { return strings.Replace(familyK, "%TTL%", ttl, 1) }
+
+// epoch is the simulated time every bubble starts at.
+var epoch = time.Date(2000, 1, 1, 0, 0, 0, 0, time.UTC)
 
 type silentDebugger struct{}
 
@@ -188,6 +237,10 @@ type clientResult struct {
 	proc     *procJSON
 	out      kOutput
 	isoErr   string
+	t0, t1   time.Time // simulated time at call and return
+	proxy    bool      // proxy-response mode: raw holds the bytes written to the connection
+	unsent   bool      // the connection was never closed (no response reached the client)
+	ffSteps  int       // scheduling points the client waited for its response after ServeHTTP returned
 }
 
 func innermostFalcoFrame(skip int) string {
@@ -224,7 +277,55 @@ func bubble(tb *testing.T, f func()) (event string) {
 	return ""
 }
 
+// decodeProxy reads what falco wrote to the client's connection in
+// proxy-response mode: the real response, whose headers carry the same
+// observations the process report gives in the default mode.
+func decodeProxy(r *clientResult) {
+	if r.unsent || len(r.raw) == 0 {
+		r.isoErr = "no response was written to the client's connection"
+		return
+	}
+	resp, err := http.ReadResponse(bufio.NewReader(bytes.NewReader(r.raw)), nil)
+	if err != nil {
+		r.isoErr = fmt.Sprintf("the bytes on the client's connection are not an HTTP response: %v (%q)", err, clip(string(r.raw), 120))
+		return
+	}
+	r.proc = &procJSON{}
+	h := resp.Header
+	o := kOutput{Flow: h.Get("X-Flow")}
+	fmt.Sscanf(h.Get("X-Count"), "%d", &o.Count)
+	fmt.Sscanf(h.Get("X-Restarts"), "%d", &o.Restarts)
+	flow := o.Flow
+	switch {
+	case strings.Contains(flow, "error"):
+		o.Branch = "error"
+	case strings.Contains(flow, "hit"):
+		o.Branch = "hit"
+	case strings.Contains(flow, "pass"):
+		o.Branch = "pass"
+	case strings.Contains(flow, "miss"):
+		o.Branch = "miss"
+	}
+	if o.Branch != "error" {
+		o.OriginSaw = h.Get("X-Origin-Saw")
+	}
+	r.out = o
+	if got := h.Get("X-Marker"); got != r.in.Marker {
+		r.isoErr = fmt.Sprintf("response header X-Marker=%q but the request sent %q", got, r.in.Marker)
+		return
+	}
+	if o.Branch == "error" {
+		if got := h.Get("X-Err-Marker"); got != r.in.Marker {
+			r.isoErr = fmt.Sprintf("error object carries marker %q, own marker %s", got, r.in.Marker)
+		}
+	}
+}
+
 func decode(r *clientResult) {
+	if r.proxy {
+		decodeProxy(r)
+		return
+	}
 	var pj procJSON
 	if json.Unmarshal(r.raw, &pj) != nil || pj.Flows == nil {
 		return
@@ -291,6 +392,19 @@ func runPartA(c *worker.Ctx) {
 		ins = append(ins, kInput{Mode: modes[c.T.Draw(len(modes))], Key: keys[c.T.Draw(len(keys))], Delta: 1 + c.T.Draw(3), Marker: fmt.Sprintf("m%d", i)})
 	}
 	faulty := c.T.Bool(1, 4)
+	// timed case: requests are sent in 10-second slots and objects live 25 s,
+	// so that objects expire, are fetched again and replaced during the case.
+	// Never a model-validation case: what a stored object's lifetime is follows
+	// from the VCL (beresp.ttl), it is not a choice of the simulator.
+	timed := !validate && c.T.Bool(1, 3)
+	ttl := "3600s"
+	if timed {
+		ttl = "25s"
+		for i := range ins {
+			ins[i].Slot = c.T.Draw(5)
+		}
+	}
+	proxy := c.T.Bool(1, 4) // proxy-response mode (falco simulate -proxy): the real response goes to the client's connection
 	results := make([]*clientResult, n)
 	var probes []*clientResult
 	var s *ssched.Sched
@@ -300,8 +414,12 @@ func runPartA(c *worker.Ctx) {
 	ev := bubble(c.TB, func() {
 		s = ssched.New(c.T)
 		s.KeepTrace = c.Render
-		store := simfs.New(familyK, nil)
-		interp := interpreter.New(icontext.WithResolver(store))
+		store := simfs.New(vclK(ttl), nil)
+		opts := []icontext.Option{icontext.WithResolver(store)}
+		if proxy {
+			opts = append(opts, icontext.WithActualResponse(true))
+		}
+		interp := interpreter.New(opts...)
 		interp.Debugger = silentDebugger{}
 		origin = simnet.NewOrigin(func(req *http.Request, k int) simnet.Behaviour {
 			b := simnet.Behaviour{Kind: "ok", Status: 200, Header: http.Header{"X-Origin-Saw": {req.Header.Get("X-Marker")}}, Body: []byte("b"), BodyErrAfter: -1,
@@ -322,9 +440,15 @@ func runPartA(c *worker.Ctx) {
 			u, _ := url.Parse(r.in.Key)
 			req := &http.Request{Method: "GET", URL: u, Host: "example.test", Proto: "HTTP/1.1", ProtoMajor: 1, ProtoMinor: 1, RemoteAddr: "192.0.2.10:4000", RequestURI: r.in.Key, Body: http.NoBody,
 				Header: http.Header{"X-Marker": {r.in.Marker}, "X-Mode": {r.in.Mode}, "X-Delta": {fmt.Sprint(r.in.Delta)}}}
-			rw := simnet.NewRecorder()
+			rw := simnet.NewHijackRecorder()
+			r.proxy = proxy
+			if r.in.Slot > 0 {
+				if d := time.Until(epoch.Add(time.Duration(r.in.Slot) * 10 * time.Second)); d > 0 {
+					s.Sleep("think", r.in.Marker, d)
+				}
+			}
 			stamp++
-			r.call = stamp
+			r.call, r.t0 = stamp, time.Now()
 			func() {
 				defer func() {
 					if v := recover(); v != nil {
@@ -334,9 +458,30 @@ func runPartA(c *worker.Ctx) {
 				interp.ServeHTTP(rw, req)
 				r.returned = true
 			}()
+			// The client has its response when its connection is closed. A
+			// handler that returned without closing it leaves the client
+			// waiting: it keeps yielding while other tasks run.
+			for rw.Hijacked && !rw.Closed() && r.ffSteps < 400 && r.panicV == nil {
+				r.ffSteps++
+				simhook.Yield("client-awaits-response")
+			}
 			stamp++
-			r.ret = stamp
-			r.code, r.raw = rw.Code(), append([]byte{}, rw.Body()...)
+			r.ret, r.t1 = stamp, time.Now()
+			if rw.Hijacked {
+				r.unsent = !rw.Closed()
+				r.code, r.raw = 0, rw.Wire()
+			} else {
+				r.code, r.raw = rw.Code(), append([]byte{}, rw.Body()...)
+				if proxy {
+					// falco fell back to the plain ResponseWriter: rebuild the wire form
+					var b bytes.Buffer
+					fmt.Fprintf(&b, "HTTP/1.1 %d X\r\n", rw.Code())
+					rw.Header().Write(&b)
+					b.WriteString("\r\n")
+					b.Write(rw.Body())
+					r.raw = b.Bytes()
+				}
+			}
 		}
 		done := make(chan struct{}, n)
 		go s.Run()
@@ -360,8 +505,12 @@ func runPartA(c *worker.Ctx) {
 		}
 		// final-state probes, after everyone returned
 		if s.Deadlock == "" {
+			probeSlot := 0
+			if timed {
+				probeSlot = int(time.Since(epoch)/(10*time.Second)) + 1
+			}
 			for _, k := range keys {
-				p := &clientResult{in: kInput{Mode: "lookup", Key: k, Delta: 0, Marker: "probe" + k[1:]}}
+				p := &clientResult{in: kInput{Mode: "lookup", Key: k, Delta: 0, Marker: "probe" + k[1:], Slot: probeSlot}}
 				probes = append(probes, p)
 				s.Go("probe", func() { serve(p); done <- struct{}{} })
 				<-done
@@ -434,12 +583,25 @@ func runPartA(c *worker.Ctx) {
 			}
 		}
 	}
-	if len(res.Violations) == 0 {
+	inWindow := true
+	if timed {
+		res.Probe("timed_case")
+		for _, r := range all {
+			lo := epoch.Add(time.Duration(r.in.Slot) * 10 * time.Second)
+			if r.t0.Before(lo) || r.t1.After(lo.Add(4*time.Second)) || r.in.Slot > 5 {
+				inWindow = false // a request queued or waited past its slot's window: expiry is too close to call
+			}
+		}
+		if !inWindow {
+			res.Probe("timed_case_abstained")
+		}
+	}
+	if len(res.Violations) == 0 && inWindow {
 		var ops []porcupine.Operation
 		for i, r := range all {
 			ops = append(ops, porcupine.Operation{ClientId: i, Input: r.in, Call: r.call, Output: r.out, Return: r.ret})
 		}
-		verdict := porcupine.CheckOperationsTimeout(kModel, ops, 20*time.Second)
+		verdict := checkHistory(ops)
 		switch verdict {
 		case porcupine.Illegal:
 			if validate {
